@@ -221,6 +221,9 @@ func cmdCheck(args []string) int {
 		defer os.RemoveAll(work)
 	}
 	replayDir := filepath.Join("/verif/replays", id)
+	if d := os.Getenv("GOSYM_EVIDENCE_DIR"); d != "" {
+		replayDir = filepath.Join(d, "replays", id)
+	}
 	os.RemoveAll(replayDir)
 	rp := &replayer{work: work, files: files, names: names, tier: tier, active: active}
 	nviol := 0
@@ -333,9 +336,13 @@ func cmdCheck(args []string) int {
 	ev["coverage"].(map[string]interface{})["sample_paths_replayed_natively"] = sampleTried
 	ev["coverage"].(map[string]interface{})["sample_paths_confirmed_natively"] = sampleOK
 	ev["coverage"].(map[string]interface{})["sample_replay_notes"] = sampleNotes
-	os.MkdirAll("/verif/evidence", 0o755)
+	evDir := "/verif/evidence"
+	if d := os.Getenv("GOSYM_EVIDENCE_DIR"); d != "" {
+		evDir = d // exploratory runs (e.g. thorough tier while developing) must not overwrite the committed evidence
+	}
+	os.MkdirAll(evDir, 0o755)
 	eb, _ := json.MarshalIndent(ev, "", " ")
-	if err := os.WriteFile(filepath.Join("/verif/evidence", id+".json"), eb, 0o644); err != nil {
+	if err := os.WriteFile(filepath.Join(evDir, id+".json"), eb, 0o644); err != nil {
 		fmt.Fprintln(os.Stderr, err)
 		return 2
 	}
